@@ -12,7 +12,7 @@ Seeds == ndJsonDeserialize(IOEnv.SEEDS)
 DictOf(name) == UNION {ToSet(DictRecs[i].kws) : i \in {j \in 1..Len(DictRecs) : DictRecs[j].dsl = name}}
 P == [dsls |-> ToSet(Par.dsls),
       dict |-> [d \in 1..NSkel |-> DictOf(Skeletons[d].dsl)],
-      all |-> UNION {ToSet(DictRecs[i].kws) : i \in 1..Len(DictRecs)}, insdsls |-> ToSet(Par.insdsls),
+      all |-> UNION {ToSet(DictRecs[i].kws) : i \in 1..Len(DictRecs)}, insdsls |-> ToSet(Par.insdsls), fordsls |-> ToSet(Par.fordsls),
       kinds |-> (IF Par.allkinds = 1 THEN KindSet ELSE ToSet(Par.kinds)), shapes |-> ToSet(Par.shapes), fshapes |-> ToSet(Par.fshapes),
       foreign |-> ToSet(Par.foreign), maxmut |-> Par.maxmut, nodsl |-> (Par.nodsl = 1)]
 
